@@ -412,7 +412,8 @@ func byteaEscapeEncode(b []byte) string { // encode(b,'escape')
 	return sb.String()
 }
 
-func pgBase64(b []byte) string { // encode(b,'base64'): MIME style, newline every 76 chars
+func pgBase64(b []byte) string { // encode(b,'base64'), PG doc 9.5 (binary string functions, base64 format) / encode.c:pg_base64_encode:
+	// a newline is written as soon as 76 characters stand on the current line, also when nothing follows (input length a multiple of 57)
 	s := base64.StdEncoding.EncodeToString(b)
 	var sb strings.Builder
 	for i := 0; i < len(s); i += 76 {
@@ -421,7 +422,7 @@ func pgBase64(b []byte) string { // encode(b,'base64'): MIME style, newline ever
 			j = len(s)
 		}
 		sb.WriteString(s[i:j])
-		if j < len(s) {
+		if j-i == 76 {
 			sb.WriteByte('\n')
 		}
 	}
